@@ -4,6 +4,7 @@ import itertools
 import numpy as np
 import json
 
+import absval as A
 import common
 from sx import Sym
 
@@ -132,6 +133,19 @@ def run(ctx):
             if ln:
                 s[rng.randrange(ln)] = 0                          # embedded NUL
         cases.append((w, s))
+    # texts whose EXCESS over the field is something a tidy-minded writer might drop instead of refusing: blanks, tabs, NULs, dots —
+    # at the end or at the start; texts that fit only after stripping or normalising; special texts (mojibake, number-like)
+    for _ in range(ctx.n(300, 6000)):
+        w = rng.choice([4, 8, 32, 256])
+        core = [rng.choice(pool[:-7]) for _ in range(rng.randrange(0, w))]
+        fill = rng.choice([0x20, 0x20, 0x09, 0xA0, 0x2E, 0x5F])
+        extra = w - len(core) + rng.choice([0, 0, 1, 2, 40])
+        s = core + [fill] * extra if rng.random() < 0.7 else [fill] * extra + core
+        cases.append((w, s))
+    for t in A._SPECIAL_TEXTS:
+        for w in (len(t) + 1, len(t), 32):
+            if w >= 1:
+                cases.append((w, [ord(c) for c in t]))
     replies = common.drv_batch([[Sym("str.write"), w, s] for w, s in cases])
     from basictdf.tdfTypes import BTSString
     for (w, s), m in zip(cases, replies):
